@@ -89,7 +89,7 @@ R1 = REG.add(Contract(
     requires=lambda c: LI.shape(c, selfname="sct_items") + [("title-has-a-letter", z3.Length(c.a["section_title"].t) >= 2)],
     ensures=r1_post,
     verify_with=block_verifier("las.LASFile.read", 'if section_title[1].upper() == "V":', 2, "las"),
-    properties=("C05", "C19", "C06"), may_raise=["AttributeError"]))
+    properties=("C05", "C19", "C06", "C03"), may_raise=["AttributeError"]))
 R1.note = ("sct_items.VERS is attribute access through SectionItems.__getattr__ (contract: AttributeError exactly when no item matches), "
            "guarded by the preceding `in` test")
 
